@@ -44,5 +44,7 @@ SEEDED = [
     ("C10-4", "C10-FOLDER"),
     ("C10-6", "C10-ENDIAN"),
     ("C10-7", "C10-STEP"),
+    ("C10-8", "C10-DISPATCH"),
+    ("C10-9", "C10-CODEC"),
 ]
 MUTANTS = list(MUTANTS) + [_P("seed-" + sid, _os.path.join(_SEEDS, sid, "patch.diff"), rule) for sid, rule in SEEDED if _os.path.exists(_os.path.join(_SEEDS, sid, "patch.diff"))]
